@@ -279,6 +279,9 @@ def run(ctx):
         owner = None
         if it[0] == "map" and it[1] == it[2] and it[3][0] in ("attr", "phi"):
             src = it[3]
+            if it[4] != T.TRUE:
+                okr = False
+                detail.append((e.node.lineno, "loop skips part of the owner's list", T.show(T.alpha(it[4]))[:60]))
         elif it[0] in ("attr", "phi"):
             src = it
         elif it[0] == "call" and it[1] in (("m", "copy"), "list") and it[2]:
@@ -316,6 +319,22 @@ def run(ctx):
     ctx.check(okr, "PAIR", f"{jv.qualname} / PAIR / each re-pointing replaces the vertex whose own list is walked by the merged vertex", ctx.where(jv),
               f"{len(rp_all)} replace_vertex calls: old = owner of the iterated list, new = the merged vertex",
               f"a replace_vertex call in join_two_vertices does not replace the vertex whose ownEdges/ownCells it is iterating (line, old-is-owner, new-is-merged): {detail}")
+
+    # wkt.reduce_amount handles exactly two mesh edges of the removed vertex (one deleted, one re-pointed): only degree-2 vertices may go
+    ra = repo.func("forsys.wkt.reduce_amount")
+    ctx.touch(ra)
+    sra = sym.summarize(repo, ra.qualname)
+    dv = [e for e in sra.events if e.kind == "del" and (e.attr or "").lstrip("$") == "vertices"]
+    okg = bool(dv)
+    for e in dv:
+        v_ = None
+        if e.key is not None and e.key[0] == "attr" and e.key[2] == "id":
+            v_ = e.key[1]
+        need = T.b_not(T.ige(T.call("len", (T.attr(v_, "ownEdges"),)), 3)) if v_ is not None else None
+        okg = okg and need in e.conds()
+    ctx.check(okg, "GUARD", f"{ra.qualname} / GUARD / a vertex is removed only if it has fewer than three mesh edges", ctx.where(ra),
+              "len(j.ownEdges) < 3 dominates the deletion (one edge deleted + one re-pointed covers all its edges)",
+              "reduce_amount deletes a vertex without the degree guard: a vertex with three mesh edges would leave an edge ending at a deleted vertex")
 
     # generate_mesh: rebuilt edges join ids of the kept interfaces, whose complement is exactly what is removed
     gm = repo.func("forsys.virtual_edges.generate_mesh")
@@ -410,6 +429,8 @@ def run(ctx):
 _E, _C, _V, _S, _SE, _F, _W, _X = ("forsys/edge.py", "forsys/cell.py", "forsys/virtual_edges.py", "forsys/skeleton.py",
                                     "forsys/surface_evolver.py", "forsys/forsys.py", "forsys/wkt.py", "forsys/vertex.py")
 PINNED = [
+    ("join_two_vertices skips the cells already visited for the first vertex", _V, "    list_of_cells_1 = [cid for cid in v1.ownCells]", "    list_of_cells_1 = [cid for cid in v1.ownCells if cid not in list_of_cells_0]"),
+    ("reduce_amount loses the edge-count half of its guard", _W, "                if len(j.ownCells) < 3 and len(j.ownEdges) < 3:", "                if len(j.ownCells) < 3:"),
     ("join_two_vertices re-points the second vertex's edges away from the first vertex", _V, "    for edge_id in list_of_edges_1:\n        edges[edge_id].replace_vertex(vertices[v1.id], new_vertex)", "    for edge_id in list_of_edges_1:\n        edges[edge_id].replace_vertex(vertices[v0.id], new_vertex)"),
     ("destructor no longer unregisters", _E, "            if self.id in v.ownEdges:\n                v.remove_edge(self.id)", "            pass"),
     ("constructor registers only on v1", _E, "        self.verticesArray = [self.v1, self.v2]\n        for v in self.verticesArray:\n            v.add_edge(self.id)",
